@@ -1489,6 +1489,10 @@ def bound_native(I, fr, bn, args, kwargs, n):
         return b.replace(*args)
     if isinstance(b, str) and name in ('startswith', 'endswith') and all(isinstance(a, str) for a in args):
         return getattr(b, name)(*args)
+    real = dir(dict) if isinstance(b, DictV) else dir(list) if isinstance(b, ListV) and not \
+        getattr(b, 'is_array', False) else dir(str) if isinstance(b, str) else None
+    if real is not None and name not in real:
+        raise _RaisedExc(Raised('AttributeError', n))     # e.g. dict.to_dict(), list.tolist()
     raise Unsupported('method %s on %r' % (name, b), n)
 
 
